@@ -39,7 +39,7 @@ NUMS = ["1", "2", "3", "12", "1.5", "0.5", "2.25", ".5", "3.0"]
 
 
 def leaf():
-    col = st.sampled_from(["x", "z", "w"]).map(lambda c: ("col", c))
+    col = st.sampled_from(["x", "z", "w", "x", "z", "w", "m"]).map(lambda c: ("col", c))  # m: an array of the namespace with missing values
     num = st.sampled_from(NUMS).map(lambda t: ("num", t))
     return st.one_of(col, col, col, num)
 
@@ -342,8 +342,20 @@ def near_copy(draw, t):
 
 
 @st.composite
+def none_comparison(draw):
+    """`e == None` / `None != e`: in Python an element-wise comparison with None (all False / all True), also where the
+    operand holds missing values."""
+    e = ("col", draw(st.sampled_from(["m", "m", "x", "w"])))
+    if draw(st.booleans()):
+        e = ("bin", draw(st.sampled_from(["+", "*"])), e, ("num", draw(st.sampled_from(NUMS))))
+    op = draw(st.sampled_from(["==", "!="]))
+    none = ("py", "None")
+    return ("bin", op, e, none) if draw(st.booleans()) else ("bin", op, none, e)
+
+
+@st.composite
 def case_strategy(draw):
-    t = draw(st.one_of(TREE, TREE, chain()))
+    t = draw(st.one_of(TREE, TREE, TREE, TREE, chain(), chain(), none_comparison()))
     other = draw(st.sampled_from(["none", "independent", "near", "near"]))
     o = None if other == "none" else (draw(TREE) if other == "independent" else draw(near_copy(t)))
     return {"tree": t, "layout_seed": draw(st.integers(0, 2**20)), "wrapper": draw(st.sampled_from(["probe", "I", "brace"])), "other": o}
@@ -357,19 +369,88 @@ def _tup(x):
 
 def py_value(text, rec):
     env = {c: pd.Series(v, dtype=float) for c, v in COLS.items()}
-    env.update(rec=rec, np=np, probe=probe)
+    env.update(rec=rec, np=np, probe=probe, m=MISSING.copy())
     return eval(text, {"__builtins__": {}}, env)  # pylint: disable=eval-used
+
+
+MISSING = np.array([1.5, np.nan, 0.5, np.nan, 2.0, -1.0, 0.25])
 
 
 def lib_design(formula, rec):
     from formulae import design_matrices
 
     frame = pd.DataFrame(dict(COLS, y=[float(i) for i in range(N)]))
-    return design_matrices(formula, frame, extra_namespace={"rec": rec, "np": np, "probe": probe})
+    return design_matrices(formula, frame, extra_namespace={"rec": rec, "np": np, "probe": probe, "m": MISSING.copy()})
+
+
+@st.composite
+def comparison_chain(draw):
+    """`a < b <= c`: Python chains comparisons, (a < b) and (b <= c)."""
+    num = st.sampled_from(["1", "2", "1.5", "0.5", "3"]).map(lambda n: ("num", n))
+    col = st.sampled_from(["x", "z", "w"]).map(lambda c: ("col", c))
+
+    def operand(leaf):
+        return st.one_of(leaf, leaf, st.tuples(st.just("bin"), st.sampled_from(["+", "-", "*"]), leaf, num))
+
+    # Python refuses a chain with a column in the middle (the truth value of a Series is ambiguous): the leading
+    # operands are numbers, the column comes last (a few chains of the other kind are drawn too, and counted as refused)
+    ops = [draw(st.sampled_from(CMP)) for _ in range(draw(st.integers(2, 3)))]
+    operands = [draw(operand(num if draw(st.integers(0, 9)) else col)) for _ in range(len(ops))] + [draw(operand(col))]
+    return {"kind": "cmp_chain", "operands": operands, "ops": ops, "layout_seed": draw(st.integers(0, 2**20)),
+            "wrapper": draw(st.sampled_from(["probe", "I", "brace"]))}
+
+
+def judge_cmp_chain(ctx, case):
+    rnd = random.Random(case["layout_seed"])
+    parts = [render(_tup(o), rnd) for o in case["operands"]]
+    text = parts[0]
+    for op, p_ in zip(case["ops"], parts[1:]):
+        text += rnd.choice(["", " ", "  "]) + op + rnd.choice(["", " "]) + p_
+    wrapper = case["wrapper"]
+    call = {"probe": f"probe({text})", "I": f"I({text})", "brace": "{" + text + "}"}[wrapper]
+    formula = f"y ~ 0 + {call}"
+    ctx.count(text, True, ["comparison_chain", "wrapper:" + wrapper], sample={"formula": formula}, stratum="comparison_chain")
+    full = dict(case, formula=formula, text=text)
+    try:
+        want = np.asarray(py_value(text, Recorder()), dtype=float)
+    except Exception as e:  # pylint: disable=broad-except
+        ctx.reject(e)  # e.g. the truth value of a Series is ambiguous: Python itself refuses a chain of columns
+        return
+    if want.shape != (N,):
+        ctx.classes["unjudged:not_a_column"] += 1
+        return
+    try:
+        with core.Guard():
+            got = np.asarray(lib_design(formula, Recorder()).common.design_matrix, dtype=float)
+    except Exception as e:  # pylint: disable=broad-except
+        ctx.fail("value", full, f"{formula!r}: Python evaluates the argument, formulae raised {type(e).__name__}: {e}", core.exc_key(e))
+        return
+    if got.shape != (N, 1) or not np.allclose(got[:, 0], want, rtol=1e-12, atol=0, equal_nan=True):
+        ctx.fail("value", full, f"{formula!r}: column {got[:4, 0].tolist() if got.ndim == 2 else got.shape}... but Python evaluates {text!r} to {want[:4].tolist()}...", "chain")
+
+
+def _kf_cmp_chain(case, clause, detail):  # pylint: disable=unused-argument
+    """KF-C12-2: a chain of comparisons is read as nested binary comparisons, ((a < b) <= c).  Only that value is known."""
+    if case.get("kind") != "cmp_chain":
+        return False
+    try:
+        parts = [render(_tup(o), None) for o in case["operands"]]
+        text = parts[0]
+        for op, p_ in zip(case["ops"], parts[1:]):
+            text = f"({text}) {op} {p_}"
+        want = np.asarray(py_value(text, Recorder()), dtype=float)
+        with core.Guard():
+            got = np.asarray(lib_design(case["formula"], Recorder()).common.design_matrix, dtype=float)
+        return got.shape == (N, 1) and bool(np.allclose(got[:, 0], want, rtol=1e-12, atol=0, equal_nan=True))
+    except Exception:  # pylint: disable=broad-except
+        return False
 
 
 def judge(ctx, case):
     if ctx.skip():
+        return
+    if case.get("kind") == "cmp_chain":
+        judge_cmp_chain(ctx, case)
         return
     t = _tup(case["tree"])
     if integer_tower(t) or (case.get("other") is not None and integer_tower(_tup(case["other"]))):
@@ -505,12 +586,13 @@ def _kf_pow(case, clause, detail):  # pylint: disable=unused-argument
         return False
 
 
-KNOWN_CLASSES = {"unary_or_chained_power": _kf_pow}
+KNOWN_CLASSES = {"unary_or_chained_power": _kf_pow, "comparison_chain": _kf_cmp_chain}
 
 
 def _worker(ctx, arg):
     shard, n = arg
     core.run_hypothesis(ctx, case_strategy(), judge, n, shard=shard)
+    core.run_hypothesis(ctx, comparison_chain(), judge, max(20, n // 20), shard=shard, salt=7)
 
 
 def run(ctx):
